@@ -535,3 +535,93 @@ pub fn run_large(tkind: TKind, depth: usize) {
     w.with_transport(VBuf { depth, deep: true, buf_len: 128 * 1024 });
     mmio::set_handler(None);
 }
+
+// ------------------------------------------------------------------------------------------
+// Long sessions: more than 65536 frames in each direction through one driver instance (both ring
+// indices of both queues wrap), every frame compared.
+
+pub fn run_linear(tkind: TKind, frames: u32) -> (u64, Vec<(String, String)>) {
+    struct VL {
+        frames: u32,
+    }
+    impl TransportVisitor for VL {
+        type Out = (u64, Vec<(String, String)>);
+        fn visit<T: Transport + 'static>(self, t: T, w: &DWorld) -> Self::Out {
+            let net = Rc::new(Net { tx: RefCell::new(vec![]), hold_tx: RefCell::new(false) });
+            let co = make_co(w, &net);
+            cosim::install(&co);
+            let mut out: Vec<(String, String)> = vec![];
+            let mut dev = match VirtIONet::<LabHal, T, NET_QS>::new(t, NET_BUF_LEN) {
+                Ok(d) => d,
+                Err(e) => {
+                    cosim::uninstall();
+                    return (0, vec![("construction".into(), format!("{:?}", e))]);
+                }
+            };
+            let hdr = if w.dev.borrow().driver_features & F_VERSION_1 != 0 { 12 } else { 10 };
+            let mut n = 0u64;
+            for i in 0..self.frames {
+                // The device uses the posted buffers in a rotating order (not always the oldest).
+                let posted = co.borrow_mut().held_count(0);
+                if posted == 0 {
+                    out.push(("linear-run".into(), format!("frame {}: no receive buffer is posted although every buffer was recycled", i)));
+                    break;
+                }
+                let j = (i as usize / 3) % posted;
+                let len = 1 + (i as usize % 61);
+                let Some((_tok, payload)) = deliver(&co, hdr, j, len, i) else { break };
+                match crate::util::catch(|| dev.receive()) {
+                    Ok(Ok(rx)) => {
+                        if rx.packet() != &payload[..] {
+                            out.push(("linear-run".into(), format!("frame {}: received {} bytes, the device wrote a {}-byte frame (or the contents differ)", i, rx.packet_len(), payload.len())));
+                            break;
+                        }
+                        if !matches!(crate::util::catch(|| dev.recycle_rx_buffer(rx)), Ok(Ok(()))) {
+                            out.push(("linear-run".into(), format!("frame {}: recycle_rx_buffer failed", i)));
+                            break;
+                        }
+                    }
+                    other => {
+                        out.push(("linear-run".into(), format!("frame {}: receive() -> {:?} although the device completed a buffer", i, other.map(|r| r.map(|b| b.packet_len())))));
+                        break;
+                    }
+                }
+                if dev.can_recv() {
+                    out.push(("linear-run".into(), format!("after frame {}: can_recv() = true with nothing completed", i)));
+                    break;
+                }
+                // A transmission per received frame.
+                let mut tx = dev.new_tx_buffer(1 + (i as usize % 5));
+                let pl: Vec<u8> = (0..tx.packet_len()).map(|k| frame_byte(i ^ 0x5555, k)).collect();
+                tx.packet_mut().copy_from_slice(&pl);
+                net.tx.borrow_mut().clear();
+                match crate::util::catch(|| dev.send(tx)) {
+                    Ok(Ok(())) => {
+                        let txs = net.tx.borrow();
+                        if txs.len() != 1 || txs[0].len() != hdr + pl.len() || txs[0][hdr..] != pl[..] {
+                            out.push(("linear-run".into(), format!("transmission {}: the device received {:?} chains, expected the {}-byte header and {} payload bytes", i, txs.iter().map(|f| f.len()).collect::<Vec<_>>(), hdr, pl.len())));
+                            break;
+                        }
+                    }
+                    other => {
+                        out.push(("linear-run".into(), format!("transmission {}: send -> {:?}", i, other)));
+                        break;
+                    }
+                }
+                n += 1;
+                if i % 2048 == 0 {
+                    hal::with(|h| h.compact());
+                    co.borrow_mut().served.clear();
+                }
+            }
+            drop(dev);
+            cosim::uninstall();
+            (n, out)
+        }
+    }
+    hal::reset();
+    let w = DWorld::new(Kind::NetBuf, tkind, F_VERSION_1 | (1 << 5), Kind::NetBuf.default_config());
+    let r = w.with_transport(VL { frames });
+    mmio::set_handler(None);
+    r
+}
